@@ -177,10 +177,10 @@ std::string CheckReindex(const Partition& p, ivec4 divisions, int nc, unsigned f
   return e.empty() ? "" : "reindex-" + e;
 }
 
-std::vector<std::array<int, 3>>& SortedTriples() {
+std::vector<std::array<int, 3>>& SortedTriples(int maxDiv) {
   static std::vector<std::array<int, 3>> v;
   if (v.empty())
-    for (int a = 1; a <= kMaxTriDiv; a++)
+    for (int a = 1; a <= maxDiv; a++)
       for (int b = 1; b <= a; b++)
         for (int cc = 1; cc <= b; cc++) v.push_back({a, b, cc});
   return v;
@@ -195,7 +195,7 @@ void PatternViolation(vh::Ctx& c, const std::string& shape, const std::string& w
 }
 
 void caseTri(vh::Ctx& c) {
-  auto& all = SortedTriples();
+  auto& all = SortedTriples((int)c.iparam("maxTriDiv", kMaxTriDiv));
   c.maxi("tri_space_size", (long long)all.size());
   c.maxi("tri_space_fully_enumerated_by_this_run", c.cases >= (long)all.size() ? 1 : 0);
   if (c.idx >= (long)all.size()) {
@@ -733,18 +733,18 @@ void caseRefineSmooth(vh::Ctx& c) {
       // coordinate-free circumstance: is the vertex an end of a marked quad diagonal
       // (tangent w == -1) and of valence 3 (the quad then shares two edges with the
       // third triangle at that vertex)?
-      int valence = 0;
-      bool quadEnd = false;
+      int valence = 0, diagonals = 0;
       for (size_t h = 0; h < tg.mesh.triVerts.size(); h++) {
-        V3 st = tg.soup.v[tg.mesh.triVerts[h]], en = tg.soup.v[tg.mesh.triVerts[3 * (h / 3) + (h % 3 + 1) % 3]];
+        V3 st = tg.soup.v[tg.mesh.triVerts[h]];
         if (key3(st) == key3(p)) {
           valence++;
-          if (tg.mesh.halfedgeTangent[4 * h + 3] < 0) quadEnd = true;
+          if (tg.mesh.halfedgeTangent[4 * h + 3] < 0) diagonals++;
         }
-        if (key3(en) == key3(p) && tg.mesh.halfedgeTangent[4 * h + 3] < 0) quadEnd = true;
       }
-      std::string circ = quadEnd ? (valence == 3 ? "valence-3-end-of-quad-diagonal" : "end-of-quad-diagonal-valence>3") : "not-on-a-quad-diagonal";
-      fail("original-vertex-moved-or-lost:" + circ, vh::J().s("vertex", v3s(p)).i("valence", valence).bo("endOfMarkedQuadDiagonal", quadEnd).raw("outMesh", vo::MeshBrief(b.mesh)));
+      const bool quadEnd = diagonals > 0;
+      // the marked quads leave the vertex with fewer than 3 edges: two of its faces share two edges
+      std::string circ = quadEnd ? (valence - diagonals < 3 ? "quad-diagonals-leave-fewer-than-3-edges-at-vertex" : "end-of-quad-diagonal") : "not-on-a-quad-diagonal";
+      fail("original-vertex-moved-or-lost:" + circ, vh::J().s("vertex", v3s(p)).i("valence", valence).i("markedQuadDiagonalsAtVertex", diagonals).raw("outMesh", vo::MeshBrief(b.mesh)));
       return;
     }
   c.count("original_vertices_found", (long long)tg.soup.v.size());
